@@ -218,6 +218,44 @@ def extended_cases(rng, n):
     return out
 
 
+# ---- fixed cases (the same for every seed): the DECIDING left operand of `&&` / `||` / `or` in every form a value can be
+# read by (variable, element, field, map value, element of a literal, call / method result, nested element, comparison);
+# and map literals inside the value of a pair of another map literal (each pair keeps ITS key).
+def fixed_cases():
+    pre = ("t = fn(name: str, v: bool) -> bool {\n  print name\n  return v\n}\n"
+           "class Sw {\n  on: bool\n  off: bool\n  o: int?\n  constructor(self) {\n    self.on = true\n    self.off = false\n    self.o = 4\n  }\n"
+           "  fn yes(self) -> bool {\n    return self.on\n  }\n}\n"
+           "fl: [bool...] = [false, true]\nnf: [[bool...]...] = [[false, true]]\nsw = Sw()\nst = map[str, bool] { \"y\": true, \"n\": false }\n"
+           "vf = false\nvt = true\nos: [int?...] = [5, nil]\nom = map[str, int?] { \"k\": 6 }\nfb = fn() -> int {\n  print \"fallback\"\n  return 0\n}\n")
+    falses = ["vf", "fl[0]", "sw.off", "st[\"n\"]", "[t(\"elem\", false)][0]", "t(\"call\", false)", "(nf[0])[0]", "(1 > 2)", "!fl[1]", "!sw.yes()", "(fl[0] && vt)", "(fl[0] || vf)"]
+    trues = ["vt", "fl[1]", "sw.on", "st[\"y\"]", "[t(\"elem\", true)][0]", "t(\"call\", true)", "(nf[0])[1]", "(1 < 2)", "!fl[0]", "sw.yes()", "(fl[1] || vf)", "(fl[1] && vt)"]
+    out = []
+
+    def logs(e):
+        return ["elem"] if "\"elem\"" in e else ["call"] if "\"call\"" in e else []
+    for e in falses:
+        out.append((pre + "print %s && t(\"right\", true)\n" % e, logs(e) + ["false"]))
+        out.append((pre + "print %s || t(\"right\", true)\n" % e, logs(e) + ["right", "true"]))
+        out.append((pre + "if %s && t(\"right\", true) {\n  print 1\n}\nprint 2\n" % e, logs(e) + ["2"]))
+    for e in trues:
+        out.append((pre + "print %s || t(\"right\", false)\n" % e, logs(e) + ["true"]))
+        out.append((pre + "print %s && t(\"right\", false)\n" % e, logs(e) + ["right", "false"]))
+        out.append((pre + "r = %s || t(\"right\", false)\nprint r\n" % e, logs(e) + ["true"]))
+    for e, v in [("os[0]", "5"), ("sw.o", "4"), ("om[\"k\"]", "6"), ("[os[0]][0]", "5")]:
+        out.append((pre + "print (%s) or fb()\n" % e, [v]))
+    out.append((pre + "print (os[1]) or fb()\n", ["fallback", "0"]))
+    # nested map literals: key, then value (with its own pairs), pair by pair; every pair lands under its own key
+    mp = "key = fn(s: str) -> str {\n  print s\n  return s\n}\nidm = fn(m: map[str, int]) -> map[str, int] {\n  return m\n}\n"
+    out.append((mp + "g = map[str, map[str, int]] { \"alice\": map[str, int] { \"math\": 90 }, \"bob\": map[str, int] { \"art\": 70, \"pe\": 60 } }\n"
+                "print g[\"alice\"]\nprint (g[\"bob\"])[\"pe\"]\nprint g.len()\n", ["{\"math\": 90}", "60", "2"]))
+    out.append((mp + "g = map[str, map[str, int]] { key(\"a\"): map[str, int] { key(\"x\"): log(1) }, key(\"b\"): idm(map[str, int] { key(\"y\"): log(2) }) }\n"
+                "print g[\"a\"]\nprint g[\"b\"]\nprint g.len()\n", ["a", "x", "1", "b", "y", "2", "{\"x\": 1}", "{\"y\": 2}", "2"]))
+    out.append((mp + "cnt = fn(m: map[str, int]) -> int {\n  return m.len()\n}\ng = map[str, int] { \"first\": cnt(map[str, int] { \"x\": 1, \"y\": 2 }), \"second\": 5 }\n"
+                "print g[\"first\"]\nprint g[\"second\"]\nprint g.len()\n", ["2", "5", "2"]))
+    out.append((mp + "g = map[str, [map[str, int]...]] { \"l\": [map[str, int] { \"in\": 1 }, map[str, int] { \"in2\": 2 }] }\nprint g.len()\nprint (g[\"l\"]).len()\n", ["1", "2"]))
+    return out
+
+
 # ---- the compound assignments `+= -= *= /= %=` are binary operators of the grammar (members of `bin_op`): their LEFT operand
 # (the variable's value; the index / key / call arguments of the path that names the slot, then the slot's value) comes
 # before the right operand, and is not disturbed by it.  Python oracle; next to the demanded output the oracle computes the
@@ -327,6 +365,9 @@ def run(ctx):
                        {"project": coretie.slim(r["proj"])}, found_input=False)
     # extended stream with the Python oracle
     ext = extended_cases(ctx.rng, 100 if ctx.quick() else 1000)
+    fixed = fixed_cases()
+    ext = fixed + ext
+    ctx.cov["fixed_short_circuit_and_nested_map_cases"] = len(fixed)
     base = ctx.mktemp()
     pre = "log = fn(k: int) -> int {\n  print k\n  return k\n}\n"   # (extended stream: values are used as given)
 
